@@ -14,7 +14,7 @@ import json
 
 import vf
 
-DEVS = ["Dev_TickerInterval", "Dev_NoSessionCheck", "Dev_NilSession", "Dev_UnknownItem"]
+DEVS = ["Dev_TickerInterval", "Dev_NoSessionCheck", "Dev_NilSession", "Dev_UnknownItem", "Dev_BlockedFanout"]
 ALLSVC = "{}"
 STATEFUL = ('{"CreateSubscription","CreateMonitoredItems","SetMonitoringMode","DeleteMonitoredItems","DeleteSubscriptions",'
             '"CloseSession","Publish","Read","Browse","Write","ActivateSession"}')
@@ -31,7 +31,7 @@ def cfg(maxlen, emit, flags, svc, inv):
 def body(run):
     q = run.quick()
     known, _ = run.known()
-    asis = {d: ("server-panic:" + d) in known for d in DEVS}
+    asis = {d: ("server-panic:" + d) in known or ("server-hang:" + d) in known for d in DEVS}
     run.cov["as_is_flags"] = asis
     exe = [None]
     gen1 = cfg(1, True, asis, ALLSVC, "INVARIANT InvEmit")
@@ -44,7 +44,7 @@ def body(run):
         lambda: run.tlc("ServerLive", "ServerLive", "gen1.cfg", mode="gen", files={"gen1.cfg": gen1}, count=False,
                         label="rows: every (request type, argument class, session class) once"),
         lambda: run.tlc("ServerLive", "ServerLive", "gens.cfg", mode="gen", files={"gens.cfg": gens}, count=False,
-                        simulate=run.pick(60, 1500), depth=run.pick(4, 5),
+                        simulate=run.pick(60, 600), depth=run.pick(4, 5),
                         label="rows: seeded request sequences over the stateful services"),
         lambda: exe.__setitem__(0, run.go_build("serverlive")),
     )
@@ -68,6 +68,8 @@ def body(run):
         if isinstance(r.get("obs"), dict):
             r["obs"] = {"steps": [m.get("resp", "") for m in r["obs"].get("marks", []) if m.get("phase") == "done"][:4]}
     run.absorb(results)
+    for r in [r for r in results if r.get("status") == "inconclusive"][:5]:
+        run.log("inconclusive:", json.dumps(r)[:600])
     if drift:
         run.notes.append("steps the as-is specification expected to kill the server but it survived (model drift, not a verdict): %d, e.g. %s"
                          % (len(drift), drift[0]))
